@@ -182,7 +182,8 @@ AddBundleF(ms, h, arg, idn, out) ==
             s2 == [s1 EXCEPT !.mgr[bm].parent = s1.con[h].mgr]
             ri == ResolveName(s2.mgr, bm, bid)
             s3 == [s2 EXCEPT !.mgr = ri.M, !.con[b].id = ri.q]
-        IN IF ri.q.ok /\ BundleIdx(s3, h, Uri(ri.q)) # {} THEN Refuse(s3)
+        IN IF ~ri.q.ok THEN Refuse([s2 EXCEPT !.mgr = ri.M])       \* unresolvable identifier
+           ELSE IF BundleIdx(s3, h, Uri(ri.q)) # {} THEN Refuse(s3)
            ELSE Ok([s3 EXCEPT !.con[h].bundles = Append(@, b), !.con[b].doc = h], NoQN)
 DoAddBundle(ms, a) ==
   AddBundleF(ms, a.h, a.arg, IF a.id = <<>> THEN <<>> ELSE <<DerefName(ms, a.id[1])>>, a.out)
